@@ -14,13 +14,18 @@ from .explorer import targets_of
 STRATS = {
     "build": ("build",), "bfs": ("bfs", None, None, None), "dfs": ("dfs", None, None, None), "scc": ("scc", True),
     "block": ("block", True, None, True), "aseeds": ("aseeds", None), "minskip": ("min", None, None, True),
+    "succskip": None,  # expand the root, then skip_to_minimal on every stub in id order (new node ids follow the solver's answer order)
 }
 
 
 def full_dump(net, strat, with_control=True):
     from biobalm.control import succession_control
     sd = new_sd(net)
-    sd, ret = apply(sd, STRATS[strat])
+    if strat == "succskip":
+        sd.node_successors(0, compute=True)
+        ret = [sd.skip_to_minimal(i) for i in list(sd.stub_ids())]
+    else:
+        sd, ret = apply(sd, STRATS[strat])
     out = {"ret": ret, "nodes": [], "edges": [], "seeds": {}, "sets": {}}
     for i in sd.node_ids():
         d = sd.node_data(i)
